@@ -119,8 +119,13 @@ def lib_seal(mode, ciph, key, nonce, T, aad, pt):
     return c.encrypt_and_digest(pt)
 
 
-def lib_open(mode, ciph, key, nonce, T, aad, ct, tag, path):
-    """One decryption-with-verification on a fresh object.  -> ('ok', plaintext) | ('exc', exception)"""
+def lib_open(mode, ciph, key, nonce, T, aad, ct, tag, path, decl=None):
+    """One decryption-with-verification on a fresh object.  -> ('ok', plaintext) | ('exc', exception)
+    paths: oneshot = update(aad); decrypt_and_verify(ct, tag)
+           split   = update()* ; decrypt()* ; verify()     (CCM: lengths of the received data declared)
+           hex     = update(aad); decrypt(ct); hexverify(hex(tag))
+           declared (CCM only) = the receiver declared assoc_len/msg_len = decl beforehand (the lengths
+                     of the authentic message), then feeds the received data in pieces"""
     bs = 8 if ciph == "DES3" else 16
     try:
         if mode == "SIV":
@@ -133,8 +138,8 @@ def lib_open(mode, ciph, key, nonce, T, aad, ct, tag, path):
             if aad:
                 c.update(aad)
             return ("ok", c.decrypt_and_verify(ct, tag))
-        if path == "split":
-            c = _new(mode, ciph, key, nonce, T, declare=(len(aad), len(ct)))
+        if path == "split" or path == "declared":
+            c = _new(mode, ciph, key, nonce, T, declare=(len(aad), len(ct)) if path == "split" else decl)
             for piece in _cuts(aad, (1, bs)):
                 c.update(piece)
             pt = b"".join([c.decrypt(piece) for piece in _cuts(ct, (bs - 1, bs + 1))])
@@ -448,6 +453,11 @@ def aead_shards(quick):
             for a in va:
                 for m in vm:
                     sh.append((mode, ciph, klens[0], dn, tl, a, m, variant))
+    # GCM value boundary: crafted 16-byte nonces whose pre-counter block J0 ends in fffffffe / ffffffff,
+    # so that inc32 wraps inside the message (2 and 3+ blocks)
+    for low in ("fffffffe", "ffffffff"):
+        for m in ((33,) if quick else (17, 33, 65)):
+            sh.append(("GCM", "AES", 16, 16, (4, 16) if quick else LEGAL_T["GCM"], 17, m, 0, "j0-low32=" + low))
     return sh
 
 
@@ -505,6 +515,9 @@ def gen_aead(g, T):
     yield ("tag-extended", "00", key, nonce, aad, ct, tag + b"\x00", True)
     yield ("tag-extended", "ff", key, nonce, aad, ct, tag + b"\xff", True)
     yield ("tag-extended", "dup", key, nonce, aad, ct, tag + tag, True)
+    yield ("tag-value", "zeros", key, nonce, aad, ct, bytes(len(tag)), True)
+    yield ("tag-value", "ones", key, nonce, aad, ct, b"\xff" * len(tag), True)
+    yield ("tag-value", "reversed", key, nonce, aad, ct, tag[::-1], True)
     full = g.sealed[g.legal_t[-1]][1]
     if len(full) > len(tag):
         yield ("tag-extended", "next-of-longest", key, nonce, aad, ct, tag + full[len(tag):len(tag) + 1], True)
@@ -604,6 +617,9 @@ def gen_siv(g, T):
     for d, x in (("00", b"\x00"), ("ff", b"\xff"), ("dup", tag)):
         yield ("tag-extended", d, key, nonce, aad, ct, tag + x, True)
     yield ("tag-extended", "front", key, nonce, aad, ct, b"\x00" + tag, True)
+    yield ("tag-value", "zeros", key, nonce, aad, ct, bytes(16), True)
+    yield ("tag-value", "ones", key, nonce, aad, ct, b"\xff" * 16, True)      # CTR IV with all bits set
+    yield ("tag-value", "reversed", key, nonce, aad, ct, tag[::-1], True)
     for i in range(8 * len(ct)):
         yield ("ct-bitflip", i, key, nonce, aad, _flip(ct, i), tag, True)
     if ct:
@@ -680,6 +696,7 @@ def gen_siv(g, T):
 # ---------------------------------------------------------------------------
 PATHS_ALL = ("oneshot", "split", "hex")
 PATHS_ONE = ("oneshot",)
+PATHS_CCM = PATHS_ALL + ("declared",)
 
 
 class RefPolicy(object):
@@ -723,12 +740,12 @@ def _script(mode, ciph, T, key, nonce, aad, ct, tag):
             % (imp, new, upd, _H(ct), _H(tag)))
 
 
-def check_candidate(mode, ciph, T, key, nonce, aad, ct, tag, kind, detail, paths, acc, pol):
+def check_candidate(mode, ciph, T, key, nonce, aad, ct, tag, kind, detail, paths, acc, pol, decl=None):
     """Run ONE received tuple through the library on every path in `paths` and compare each
     outcome with the verdict the reference computes from the received values."""
     outs = []
     for p in paths:
-        o = lib_open(mode, ciph, key, nonce, T, aad, ct, tag, p)
+        o = lib_open(mode, ciph, key, nonce, T, aad, ct, tag, p, decl)
         acc.count("evaluations")
         outs.append(o)
     any_ok = any(o[0] == "ok" for o in outs)
@@ -764,7 +781,10 @@ def check_candidate(mode, ciph, T, key, nonce, aad, ct, tag, kind, detail, paths
         acc.count("verdicts_by_encrypt_side_chain", len(paths))
     mname = mode if ciph in ("AES", "-") else "%s-%s" % (mode, ciph)
     problems = []
+    exp_accept_all = exp_accept
     for p, o in zip(paths, outs):
+        # a receiver that declared other lengths beforehand must refuse data of the received lengths
+        exp_accept = exp_accept_all and (p != "declared" or (len(aad), len(ct)) == tuple(decl))
         if o[0] == "ok":
             acc.count("accepted")
             if not exp_accept:
@@ -785,23 +805,30 @@ def check_candidate(mode, ciph, T, key, nonce, aad, ct, tag, kind, detail, paths
                 cls = None
         acc.seen("classes", (mname, kind, p if mode != "SIV" else "oneshot", exp_accept, oc))
         if cls:
-            problems.append((p, cls, o))
+            problems.append((p, cls, o, exp_accept))
+    exp_accept = exp_accept_all
     if exp_accept:
         acc.count("expected_accept")
         if not kind.startswith("authentic"):
             acc.seen("authentic_by_spec_kinds", (mname, kind))
+            acc.observe("%s: a %s candidate is authentic by the specification for the RECEIVED values (same tag "
+                        "defined: DES parity bit / SIV key half unused by an empty message / nonce == last AD "
+                        "component / short-tag coincidence); the property's 'iff' sentence is applied, not "
+                        "'mutated => reject'" % (mname, kind))
     if problems:
-        allsame = len(problems) == len(paths) and len({c for _, c, _ in problems}) == 1
+        allsame = len(problems) == len(paths) and len({c for _, c, _, _ in problems}) == 1
         case = {"part": "aead", "mode": mode, "ciph": ciph, "T": T, "key": key, "nonce": nonce,
                 "aad": list(aad) if mode == "SIV" else aad, "ct": ct, "tag": tag, "kind": kind,
-                "detail": detail, "paths": list(paths)}
-        for p, cls, o in problems:
+                "detail": detail, "paths": list(paths), "decl": None if decl is None else list(decl)}
+        for p, cls, o, ea in problems:
             k = "C01/%s/%s/%s" % (mname, cls, kind)
             if not allsame:
                 k += "/via-" + p
             got = ("returned %s" % short(o[1])) if o[0] == "ok" else \
                   ("raised %s: %s" % (type(o[1]).__name__, o[1]))
-            want = ("accept with plaintext %s" % short(exp_pt)) if exp_accept else "ValueError"
+            want = ("accept with plaintext %s" % short(exp_pt)) if ea else "ValueError"
+            if p == "declared":
+                want += " (receiver declared assoc_len=%d, msg_len=%d)" % tuple(decl)
             acc.violation(
                 k, "%s mac_len=%s key=%s nonce=%s aad=%s: received ct=%s tag=%s [%s %s] via %s %s; the "
                    "specification (%s) demands %s" % (
@@ -858,7 +885,26 @@ def check_reverify(mode, ciph, T, key, nonce, aad, ct, tag, acc):
 # ---------------------------------------------------------------------------
 # one shard = one (mode, cipher, klen, nlen, AAD shape, mlen, variant), all its tag lengths
 # ---------------------------------------------------------------------------
-def build_cfg(mode, ciph, kl, nl, ashape, ml, variant):
+def _gcm_nonce_for_j0(key, target16):
+    """16-byte nonce N with GHASH-derived J0 == target16:  J0 = N*H^2 + L*H  (L = lengths block)."""
+    M = _ref()["M"]
+    c = _rc("AES", key)
+    mul = M.gf128_mul
+    h = int.from_bytes(c.encrypt_block(bytes(16)), "big")
+    h2 = mul(h, h)
+    inv, base, e = 1 << 127, h2, (1 << 128) - 2          # 1<<127 is the field's one (x^0 leftmost)
+    while e:
+        if e & 1:
+            inv = mul(inv, base)
+        base = mul(base, base)
+        e >>= 1
+    n = mul(int.from_bytes(target16, "big") ^ mul(128, h), inv).to_bytes(16, "big")
+    if M.gcm_j0(c, n) != target16:
+        raise AssertionError("harness: J0 crafting failed")
+    return n
+
+
+def build_cfg(mode, ciph, kl, nl, ashape, ml, variant, special=None):
     g = Cfg()
     g.mode, g.ciph = mode, ciph
     g.bs = 8 if ciph == "DES3" else 16
@@ -866,6 +912,9 @@ def build_cfg(mode, ciph, kl, nl, ashape, ml, variant):
     lab = "%s/%s/%s/%s/%s/%s" % (mode, ciph, kl, nl, ashape, ml)
     g.key = _val(variant, lab + "/key", kl)
     g.nonce = None if nl is None else _val(variant, lab + "/nonce", nl)
+    if special:
+        assert mode == "GCM" and nl == 16 and special.startswith("j0-low32=")
+        g.nonce = _gcm_nonce_for_j0(g.key, seeded("c01/" + lab + "/j0", 12) + bytes.fromhex(special[9:]))
     if mode == "SIV":
         g.aad = tuple(_val(variant, lab + "/aad%d" % j, n) for j, n in enumerate(ashape))
         g.aadB = tuple(_other(x, lab + "/aadB%d" % j) for j, x in enumerate(g.aad))
@@ -882,8 +931,9 @@ def build_cfg(mode, ciph, kl, nl, ashape, ml, variant):
 
 
 def run_shard(shard, acc, every):
-    mode, ciph, kl, nl, tlens, ashape, ml, variant = shard
-    g = build_cfg(mode, ciph, kl, nl, ashape, ml, variant)
+    mode, ciph, kl, nl, tlens, ashape, ml, variant = shard[:8]
+    special = shard[8] if len(shard) > 8 else None
+    g = build_cfg(mode, ciph, kl, nl, ashape, ml, variant, special)
     for T in g.legal_t:
         g.sealed[T] = lib_seal(mode, ciph, g.key, g.nonce, T, g.aad, g.pt)
         g.refsealed[T] = spec_seal(mode, ciph, g.key, g.nonce, T, g.aad, g.pt)
@@ -893,7 +943,7 @@ def run_shard(shard, acc, every):
         g.sealedB[T] = lib_seal(mode, ciph, g.key, g.nonceB, T, g.aadB, g.ptB)
         g.sealedC[T] = lib_seal(mode, ciph, g.key, g.nonce, T, g.aad, g.ptC)
         g.sealedD[T] = lib_seal(mode, ciph, g.key, g.nonce, T, g.aad, g.ptD)
-        acc.seen("shapes", (mode, ciph, kl, nl, T, ashape, ml))
+        acc.seen("shapes", (mode, ciph, kl, nl, T, ashape, ml, special))
         acc.count("configurations")
         seen = set()
         n_auth_ok = 0
@@ -903,8 +953,9 @@ def run_shard(shard, acc, every):
                 continue
             seen.add(r)
             acc.count("candidates")
-            paths = PATHS_ONE if (mode == "SIV" or not allp) else PATHS_ALL
-            ea = check_candidate(mode, ciph, T, key, nonce, aad, ct, tag, kind, detail, paths, acc, pol)
+            paths = PATHS_ONE if (mode == "SIV" or not allp) else (PATHS_CCM if mode == "CCM" else PATHS_ALL)
+            ea = check_candidate(mode, ciph, T, key, nonce, aad, ct, tag, kind, detail, paths, acc, pol,
+                                 decl=(len(g.aad), len(g.pt)) if mode == "CCM" else None)
             if kind == "authentic" and detail == "" and ea:
                 n_auth_ok += 1
         if mode != "SIV" and n_auth_ok:
@@ -978,6 +1029,8 @@ def check_kw(mode, key, wrapped, kind, detail, acc):
         acc.count("expected_accept")
         if not kind.startswith("authentic"):
             acc.seen("authentic_by_spec_kinds", (mode, kind))
+            acc.observe("%s: a forged %s candidate is a valid wrapping by the specification (e.g. another MLI inside "
+                        "the legal window over zero bytes); accepted with the reference plaintext" % (mode, kind))
     if cls:
         g = ("returned %s" % short(got[1])) if got[0] == "ok" else ("raised %s: %s" % (type(got[1]).__name__, got[1]))
         acc.violation("C01/%s/%s/%s" % (mode, cls, kind),
@@ -1199,8 +1252,10 @@ def run(ctx):
         ctx.require(acc_ok, "mode %s: no authentic tuple was ever accepted" % m)
         ctx.require(len({c[1] for c in rej_ok}) >= 8, "mode %s: fewer than 8 kinds of forged tuples rejected" % m)
         if m not in ("SIV", "KW", "KWP"):
-            for p in PATHS_ALL:
-                ctx.require([c for c in classes if c[0] == m and c[2] == p], "mode %s: path %s never used" % (m, p))
+            for p in (PATHS_CCM if m == "CCM" else PATHS_ALL):
+                ctx.require([c for c in classes if c[0] == m and c[2] == p and c[4] == "accept" and c[3]]
+                            and [c for c in classes if c[0] == m and c[2] == p and c[4] != "accept"],
+                            "mode %s: path %s did not both accept and reject" % (m, p))
             ctx.require([c for c in classes if c[0] == m and c[1] == "reverify"], "mode %s: no re-verify history" % m)
     ctx.require(a.n.get("accepted", 0) >= a.n.get("configurations", 0) > 0,
                 "fewer acceptances than configurations")
@@ -1230,6 +1285,7 @@ def run(ctx):
                            "encrypt_side_chain": a.n.get("verdicts_by_encrypt_side_chain", 0)},
         "accepted": a.n.get("accepted", 0), "rejected": a.n.get("rejected", 0),
         "expected_accept_tuples": a.n.get("expected_accept", 0),
+        "library_outcome_classes": sorted({c[4] for c in classes}),
         "non_authentic_kinds_the_specification_accepts": sorted("%s:%s" % k for k in byspec),
         "phase_wall_s": phases,
         "grid": [{"mode": g[0], "cipher": g[1], "key_lengths": list(g[2]),
@@ -1249,13 +1305,15 @@ def run(ctx):
             "AAD/ciphertext boundary moved by a byte / a block, AAD and ciphertext exchanged",
             "nonce truncated / extended where the length stays legal",
             "splices with message B (other nonce+AAD), C (same nonce), D (same nonce, one block longer)",
+            "tag values all-zero / all-ones / byte-reversed; GCM: crafted nonces with J0 low word fffffffe / ffffffff",
             "SIV: AD components dropped, duplicated, emptied, split, merged, swapped; nonce dropped / moved into the AD vector",
             "KW/KWP: all bit flips, 64 ICV bits, 32+32 AIV bits, every MLI around the window x 3 fillings, "
             "non-zero byte at every padding position, wrong lengths, semiblock swaps, splices, cross-mode",
         ],
-        "paths": "oneshot decrypt_and_verify for every tuple; update()*/decrypt()*/verify() (split, CCM with "
-                 "declared lengths) and decrypt()/hexverify() for every tuple except 7 of 8 bit flips of "
-                 "ct/aad/nonce and all but two key flips; one verify/hexverify re-use history per configuration",
+        "paths": "oneshot decrypt_and_verify for every tuple; update()*/decrypt()*/verify() (split; CCM with "
+                 "the received lengths declared), decrypt()/hexverify(), and for CCM a receiver that declared "
+                 "the authentic message's assoc_len/msg_len beforehand: for every tuple except 7 of 8 bit flips "
+                 "of ct/aad/nonce and all but two key flips; one verify/hexverify re-use history per configuration",
     })
     ctx.assume("data values: seeded (SHAKE256 of VERIF_SEED and the configuration label) on the whole grid, "
                "all-zero / all-0xFF / ascending on a sub-grid only (DESIGN 2.4)")
@@ -1264,6 +1322,13 @@ def run(ctx):
                "formula on longer inputs)")
     ctx.assume("collisions of the 160-bit BLAKE2s comparison MAC are outside any bound; its key comes from a "
                "deterministic replacement of the mode modules' get_random_bytes")
+    if q:
+        ctx.assume("quick grid: AES-128 (3DES-16 for EAX/3DES, 32-byte SIV keys), four tag lengths per mode, message "
+                   "lengths {0,1,16,17}, AAD lengths {0,1,16,17,33}, OCB nonce lengths {1,8,12,14,15} (see coverage.grid)")
+    else:
+        ctx.assume("thorough grid: every legal tag length is crossed with AES-128 (3DES-16) only; AES-192/256 and "
+                   "3DES-24 (which differ only inside the block cipher) use four tag lengths {min,12,15|14,max} "
+                   "({2,4,7,8} for 3DES) (see coverage.grid)")
     ctx.assume("EAX is exercised over AES and 3DES only; GCM/CCM/OCB/SIV/KW/KWP only exist for AES in this library")
     if every > 1:
         ctx.assume("verdicts for rejected tuples outside the 1-in-%d reference subsample rest on the chain "
@@ -1283,7 +1348,7 @@ def replay(case, acc):
             aad = tuple(aad)
         check_candidate(mode, case["ciph"], case["T"], case["key"], case["nonce"], aad, case["ct"],
                         case["tag"], case["kind"], case.get("detail", ""), tuple(case["paths"]), acc,
-                        RefPolicy(1))
+                        RefPolicy(1), decl=case.get("decl"))
     elif part == "reverify":
         check_reverify(case["mode"], case["ciph"], case["T"], case["key"], case["nonce"], case["aad"],
                        case["ct"], case["tag"], acc)
